@@ -23,7 +23,7 @@ EXPLANATION = (
     "ends the session: BLE closes the connection on any failed/cancelled request before re-raising and resets both keys "
     "on close and on disconnect, only pair-verify installs keys (always both); CoAP gives up with EncryptionError after "
     "shutting the context down. Strictly increasing counter under one key object + AEAD => no reuse, replay or reorder; "
-    "the premises are what is checked, over all paths and all writers."
+    "the premises are what is checked, over all paths and all writers. Added from seeded faults: a nonce packed from a local copy of the counter taken before the counter advanced is reported; a counter threaded through a local and written back by its owner is 'not decided', except where the per-request advance is an arithmetic term over the payload length, which is folded on sample lengths and compared with the number of messages sealed."
 )
 TRUSTED = ["AEAD (ChaCha20-Poly1305) rejects a message under a wrong nonce", "struct.pack of the counter is injective below 2^64"]
 
